@@ -31,6 +31,9 @@ func (e *kvElection) validationLoop(ctx context.Context) {
 		case <-ctx.Done():
 			return
 		case <-ticker.C:
+			if ctx.Err() != nil {
+				continue
+			}
 			if !e.IsLeader() {
 				return
 			}
